@@ -134,19 +134,25 @@ def parseObs (o : String) : Spec.Obs :=
 
 def fmtRoute (toks : List String) (r : Spec.Route) : String := s!"h={r.h} vars={fmtVars (Spec.binds r.pats toks)}"
 
-def fmtVerdict (m : String) (toks : List String) (impl : String) : Spec.Verdict → Option String
+def fmtVerdict (c : Spec.Custom) (m : String) (toks : List String) (impl : String) : Spec.Verdict → Option String
   | .ok => none
   | .notUnique => some "hypothesis holds but the preferred match is not unique"
   | .noRouteMatches => some s!"dispatched [{impl}] although no route of method {m} matches"
   | .wrongRoute adm => some s!"dispatched [{impl}] but the preferred match is [{",".intercalate (adm.map (fmtRoute toks))}]"
   | .notDispatched r => some s!"not dispatched [{impl}] although route h={r.h} matches"
-  | .expected (.notAllowed a) => some s!"expected [405 allow={",".intercalate (sortStr a)}] (or the custom not-allowed handler) got [{impl}]"
-  | .expected _ => some s!"expected [404] (or the custom not-found handler) got [{impl}]"
+  | .expected (.notAllowed a) =>
+    match c.na with
+    | none => some s!"expected [405 allow={",".intercalate (sortStr a)}] got [{impl}]"
+    | some h => some s!"expected the custom not-allowed handler [na={h}] (405 situation, other methods {",".intercalate (sortStr a)}) got [{impl}]"
+  | .expected _ =>
+    match c.nf with
+    | none => some s!"expected [404] got [{impl}]"
+    | some h => some s!"expected the custom not-found handler [nf={h}] (no route of any method matches) got [{impl}]"
 
 /-- the property's verdict on one observed outcome of a request. `none` = fine. -/
 def monitorReq (tbl : Spec.Table) (hyp : Bool) (c : Spec.Custom) (m path : String) (impl : String) : Option String :=
   let toks := if rooted path then some (cleanToks path) else none
-  fmtVerdict m (toks.getD []) impl (Spec.monitorObs tbl hyp c m toks (parseObs impl))
+  fmtVerdict c m (toks.getD []) impl (Spec.monitorObs tbl hyp c m toks (parseObs impl))
 
 structure St where
   pr : PatRouter := {}
@@ -156,6 +162,7 @@ structure St where
   -- rest.Server sections
   opts : List RunOpt := []
   built : Bool := false
+  served : Bool := false         -- a request was served already (late registrations)
   groups : List Group := []
 
 def patKind (pats : List String) : String :=
@@ -184,6 +191,7 @@ def runReq (r : Report) (st : St) (sidx : Nat) (l : Line) (m p : String) : Repor
     if cleanToks p = [""] then r := r.addCover "req-root"
     if p.toList.getLast? == some '/' ∧ p.length > 1 then r := r.addCover "req-trailing-slash"
     if hasUpper p then r := r.addCover "req-upper-case"
+    if p.toList.any (fun c => c.toNat > 127) then r := r.addCover "req-non-ascii-segment"
   else r := r.addCover "req-not-rooted"
   if !(validMethod m) then r := r.addCover "req-unsupported-method"
   let hyp := Spec.oneVarPerPosition st.tbl
@@ -269,6 +277,7 @@ def runSection (r : Report) (s : Section) : Report := Id.run do
         match res with
         | .ok pr' => st := { st with pr := pr' }
         | .error _ => pure ()
+        if st.served then r := r.addCover "route-after-requests"
         st := { st with tbl := tbl' }
         if !(Spec.oneVarPerPosition st.tbl) then r := r.addCover "table-outside-hypothesis"
       | _, _, _ => r := r.mismatch s.idx l.idx "bad-op" (joinSp l.op)
@@ -351,6 +360,7 @@ def runSection (r : Report) (s : Section) : Report := Id.run do
       | some m, some p =>
         if kvStr s.cfg "kind" = "server" then st := { st with built := true }
         r := runReq r st s.idx l m p
+        st := { st with served := true }
       | _, _ => r := r.mismatch s.idx l.idx "bad-op" (joinSp l.op)
     | "tadd" :: args =>
       match arg "p=" args, (arg "h=" args).bind parseItem with
@@ -407,7 +417,7 @@ def runSection (r : Report) (s : Section) : Report := Id.run do
             match parseObs o with
             | .hit h vars =>
               let ok := cands.any fun x =>
-                x.h == h && (if Spec.distinctNames x.pats then Spec.sameSet vars (Spec.binds x.pats tk)
+                x.h == h && cands.all (fun y => Spec.prefers x.pats y.pats) && (if Spec.distinctNames x.pats then Spec.sameSet vars (Spec.binds x.pats tk)
                              else vars.all (Spec.binds x.pats tk).contains)
               if !ok then
                 r := r.violation s.idx l.idx s!"Tree.Search {p}: found [{o}] but the stored routes matching are [{",".intercalate (cands.map (fmtRoute tk))}]"
